@@ -20,6 +20,7 @@ template class SplineTrajectory::SepticSplineND<WIT_DIM_A>;
 template struct SplineTrajectory::BoundaryConditions<WIT_DIM_A>;
 #ifndef WIT_NO_EXTRA_DIMS
 template class SplineTrajectory::SepticSplineND<4>;
+template class SplineTrajectory::SepticSplineND<2>;
 template class SplineTrajectory::QuinticSplineND<1>;
 template class SplineTrajectory::CubicSplineND<1>;
 template class SplineTrajectory::SepticSplineND<1>;
